@@ -120,7 +120,13 @@ package tchannel
 //@   ensures err == errUnknownID ==> FrameFull(f) && f.Header.size == old(f.Header.size) && f.Header.ID == old(f.Header.ID)
 //@   label finish-only-after-a-final-frame-was-sent
 //@   atcall finishRelayItem finished && sent
-//@   property C08 C09 C10
+// (the frame's id has been rewritten to the other connection's id by the time
+// the item is failed or finished: the table is keyed by the id it ARRIVED with)
+//@   label item-is-failed-under-the-id-the-frame-arrived-with
+//@   atcall failRelayItem arg2 == old(f.Header.ID)
+//@   label item-is-finished-under-the-id-the-frame-arrived-with
+//@   atcall finishRelayItem arg2 == old(f.Header.ID)
+//@   property C08 C09 C10 C04
 
 // Receive: a frame is queued on this connection only for a live, known id; a
 // final frame is queued only by the path that stopped the timeout.
